@@ -56,8 +56,8 @@ def O(op, u=None, **kw):
 def corpus():
     cs = []
 
-    def add(cid, ops, auth=False, disable=False, tenant=False):
-        cs.append({"id": cid, "auth": auth, "disable": disable, "tenant": tenant, "ops": ops})
+    def add(cid, ops, auth=False, disable=False, tenant=False, front=False):
+        cs.append({"id": cid, "auth": auth, "disable": disable, "tenant": tenant, "front": front, "ops": ops})
     three = [conn("u1", "e1"), conn("u2", "e1", "raw"), conn("u3", "ep-2")]
     # every way to end, on a shared endpoint
     add("c-client-shutdown", three + [O("client_shutdown", "u1"), O("client_shutdown", "u2"), O("client_shutdown", "u3")])
@@ -75,6 +75,12 @@ def corpus():
     add("c-shed-after-errgone", [conn("u1", "e1"), conn("u2", "e1"), O("goaway", "u1"), O("errgone", "u1"), O("shed", n=2)])
     add("c-server-shutdown", three + [O("goaway", "u2"), O("errgone", "u2"), O("server_shutdown"), conn("u4", "e1"),
                                       O("client_shutdown", "u1")])
+    # the server is unreachable for a moment (connections cut, reconnects refused); the application closes its listeners
+    # meanwhile; when the server is back nothing may reconnect and register
+    add("c-close-during-blackout", [conn("u1", "e1"), conn("u2", "e1", "raw"), conn("u3", "ep-2"), O("blackout"), O("sleep", ms=60),
+                                    O("client_shutdown", "u1"), O("client_shutdown", "u3"), O("restore", ms=600), O("client_shutdown", "u2")], front=True)
+    add("c-close-during-blackout-auth", [conn("u1", "e1", tok="noexp"), conn("u2", "e1", tok="exp", ahead=60000), O("blackout"),
+                                         O("client_shutdown", "u2"), O("client_shutdown", "u1"), O("restore", ms=600)], auth=True, front=True)
     # a half-open client connection on the upstream port makes the HTTP part of the shutdown run into its (short) grace
     # period: the upstream connections are closed and deregistered all the same
     add("c-server-shutdown-straggler", three + [O("straggler"), O("server_shutdown", ms=300)])
@@ -231,9 +237,16 @@ def monitor(case, out, stats=None):
     info = {}      # u -> dict(ep, open, reg, goaway, T, deadline, ended_before)
     order = []
     down = False
+    cut_alive = set()       # client listeners cut off by a blackout that the application has not closed (they may reconnect)
     for i, (op, ob) in enumerate(zip(case["ops"], out["obs"])):
         k = op["op"]
         u = op.get("u")
+        if k == "blackout":
+            cut_alive |= set(ob.get("dropped") or [])
+        elif k == "client_shutdown":
+            cut_alive.discard(u)
+        elif k == "restore" and cut_alive:
+            return None     # a listener that is still open reconnects, as it should: a new connection the scenario does not name
         if k == "connect":
             want = expected_handshake(case, op, down)
             if ob["res"] != want:
@@ -246,6 +259,10 @@ def monitor(case, out, stats=None):
         elif k in ("client_shutdown", "drop"):
             if u in info and ob["res"] == "ok" and info[u]["open"]:
                 info[u].update(open=False, reg=False)
+        elif k == "blackout":
+            for x in ob.get("dropped") or []:
+                if x in info and info[x]["open"]:
+                    info[x].update(open=False, reg=False)
         elif k == "goaway":
             if u in info and info[u]["open"]:
                 if ob["res"] == "ok":
@@ -364,6 +381,8 @@ def events_of(case, op, ob, known, prev_closed):
     elif k == "drop":
         if u in known and ob["res"] == "ok":
             ev.append("EvNetDrop %s" % cs(u))
+    elif k == "blackout":
+        ev += ["EvNetDrop %s" % cs(x) for x in (ob.get("dropped") or []) if x in known]
     elif k == "goaway":
         if u in known and ob["res"] == "ok":
             ev.append("EvGoAway %s" % cs(u))
